@@ -1,6 +1,6 @@
 (* C05 -- children(), parent() and parents() describe the real process tree.
    Statements only; proofs live in C05/Lib.v, C05/Proofs.v, C05/ProofsSpec.v, C05/ProofsParent.v,
-   C05/ProofsVanish.v, C05/ProofsClock.v.
+   C05/ProofsVanish.v, C05/ProofsClock.v, C05/ProofsBig.v, C05/ProofsSource.v (over the generated Gen/C05_Tables.v).
    Model: C05/Model.v (transcription of psutil/__init__.py children/parent/parents/
    ppid and _pslinux.ppid_map; [as_is] = the code as it is now, [before_fixes] = the
    code before the repairs 6afb079 / 3959fba / e202d3b / 671469c / e49a6c9, [before_nsp_fix] = the code
@@ -13,7 +13,7 @@
    Process(ppid) / before parent.create_time()); goneb = ancestors vanishing after parents()
    appended them; o = the caller object;
    fuel = number of loop iterations allowed (None = exhausted = no termination). *)
-From PV Require Import C05.Spec C05.Lib C05.Proofs C05.ProofsSpec C05.ProofsParent C05.ProofsVanish C05.ProofsClock.
+From PV Require Import C05.Spec C05.Lib C05.Proofs C05.ProofsSpec C05.ProofsParent C05.ProofsVanish C05.ProofsClock C05.ProofsBig C05.ProofsSource Gen.C05_Tables.
 
 (* children(): exactly the listed processes naming the caller as parent, never the
    caller itself, still there and not started before it, in listing order *)
@@ -293,3 +293,29 @@ Theorem C05_ident_falsy_refuted :
   parents as_is 5 t0tab [] [] None fwd = Val (Some [1]) /\ parents ident_falsy_variant 5 t0tab [] [] None fwd = Val (Some []).
 Proof. exact ident_falsy_refuted. Qed.
 Print Assumptions C05_ident_falsy_refuted.
+
+(* ---------------------------------------------------------------- size and depth
+   The general theorems above hold for tables of any size; the loops of the model are driven by
+   an explicit work-list with fuel = number of processes + 1 (C05_children_rec_terminates,
+   C05_parents_terminates), never by recursion on the depth of the tree.  Instances for the
+   deepest possible tree, a chain 1 <- 2 <- .. <- n of ANY length n (no bound but pid_t): *)
+Theorem C05_chain_children_rec : forall n k, Z.of_nat n <= PID_MAX -> 1 <= k <= Z.of_nat n ->
+  exists l, children_rec as_is (S n) (gen_chain n) [] (chain_caller k) = Val (Some l) /\ NoDup l /\
+            forall q, In q l <-> k < q <= Z.of_nat n.
+Proof. exact chain_children_rec. Qed.
+Print Assumptions C05_chain_children_rec.
+
+Theorem C05_chain_parents : forall n m cache, Z.of_nat n <= PID_MAX -> (S m <= n)%nat ->
+  cache_fresh_b (gen_chain n) cache = true ->
+  parents as_is (S n) (gen_chain n) [] [] cache (chain_caller (Z.of_nat (S m))) = Val (Some (down m)).
+Proof. exact chain_parents. Qed.
+Print Assumptions C05_chain_parents.
+
+(* the SOURCE agrees (table generated from its ast on every run): children(), parents(), parent()
+   and ppid_map() are present, none of them reaches itself through calls (by name), none
+   contains a nested function, lambda or class -- they are loops, as modelled *)
+Theorem C05_source_no_recursion :
+  forallb (fun f => present f && negb (reaches (length c05_calls) f f) && Nat.eqb (nested f) 0)
+          ["children"; "parents"; "parent"; "linux.ppid_map"]%string = true.
+Proof. exact source_no_recursion. Qed.
+Print Assumptions C05_source_no_recursion.
